@@ -205,6 +205,55 @@ fn pw_edge_rng(b: &mut Builder) -> RngSpec {
     RngSpec::Script { draws: vec![String::new(), n], seed: s }
 }
 
+/// Runs 0..4: one version each: passwords of every length 0..=L (HMAC / BLAKE2b / Argon2 block
+/// boundaries), both key kinds, every writer; each blob is recomputed by the reference and read
+/// by every backend of the version.
+fn sweep_passwords(seed: u64, run: u64, tier: Tier) -> Plan {
+    let f = 1 + (run % 4) as u8;
+    let nodes = match f {
+        1 => vec![Bk::V1],
+        2 => vec![Bk::V2],
+        3 => vec![Bk::V3, Bk::V3Lc],
+        _ => vec![Bk::V4, Bk::V4Na],
+    };
+    let mut b = Builder::new("C07", seed, run, nodes.clone());
+    let fk = b.family_keys(f, false).unwrap();
+    let top = if tier == Tier::Quick { 300 } else { 1200 };
+    let params = if matches!(f, 1 | 3) { PwParams::Iter(1) } else { PwParams::Argon(8192, 1, 1) };
+    for len in 0..=top {
+        let mut pw = crate::prng::Rng::new(b.ev_seed()).bytes(len);
+        if let Some(l) = pw.last_mut() {
+            *l |= 1;
+        }
+        let with = SecretRef::Password { bytes: Bytes::hex(&pw) };
+        let key = if len % 2 == 0 { fk.local } else { fk.secret };
+        let blob = b.blob_slot();
+        let writer = len % nodes.len();
+        let rng = b.healthy_rng();
+        b.push(Step::Wrap { blob, node: writer, wk: WrapKind::Pw, key, with: with.clone(), params: params.clone(), rng });
+        for node in 0..nodes.len() {
+            b.push(Step::Unwrap { blob, node, with: with.clone(), faults: vec![], as_kind: None });
+        }
+        // PIE and PKE alongside (fixed-size inputs, different nonces every time)
+        if len % 8 == 0 {
+            for wk in [WrapKind::Pie, WrapKind::Pke] {
+                if f == 1 && wk == WrapKind::Pke && len % 64 != 0 {
+                    continue;
+                }
+                let (with_w, with_u) = wrap_secret_for(&fk, wk, &Bytes::empty());
+                let key = if wk == WrapKind::Pie && len % 16 == 0 { fk.secret } else { fk.local };
+                let blob = b.blob_slot();
+                let rng = b.healthy_rng();
+                b.push(Step::Wrap { blob, node: writer, wk, key, with: with_w, params: PwParams::Default, rng });
+                for node in 0..nodes.len() {
+                    b.push(Step::Unwrap { blob, node, with: with_u.clone(), faults: vec![], as_kind: None });
+                }
+            }
+        }
+    }
+    b.finish()
+}
+
 fn wrap_secret_for(fk: &FamilyKeys, wk: WrapKind, pw: &Bytes) -> (SecretRef, SecretRef) {
     match wk {
         WrapKind::Pie => (SecretRef::Key { slot: fk.local }, SecretRef::Key { slot: fk.local }),
@@ -233,6 +282,9 @@ impl Scenario for C07 {
         matches!((v.property, v.class.as_str()), ("C05", "authentic-blob-rejected" | "roundtrip-mismatch" | "wrap-failed" | "wrong-blob-length-or-header"))
     }
     fn plan(&self, seed: u64, run: u64, tier: Tier) -> Plan {
+        if run < 4 {
+            return sweep_passwords(seed, run, tier);
+        }
         let mut r0 = crate::prng::Rng::derive(seed, "c07-nodes", run);
         let (f, nodes) = family_nodes(&mut r0);
         let mut b = Builder::new("C07", seed, run, nodes.clone());
